@@ -602,8 +602,110 @@ class Fn:
                 for b, vs in by_t.items():
                     out[b].append(norm_cmp('eq', term, vs[0], prim=True) if len(vs) == 1 else 'in(' + term + ',' + '|'.join(vs) + ')')
                 out[other].append('!in(' + term + ',' + '|'.join(vals) + ')')
+        self._enum_aliases(bb, out)
         self._props[bb] = out
         return out
+
+    def _enum_aliases(self, bb, out):
+        """`x == T::V` (PartialEq on a field-less enum) and `matches!(x, T::V)` / `match x { T::V => .. }` (discriminant test) are
+        the same test: every edge labelled with one form is also labelled with the other, and with the negations it implies for
+        the other variants (small enums only)."""
+        t = self.blocks[bb]['t']
+        if t[0] != 'switch' or self.prog is None:
+            return
+        add = defaultdict(list)
+        try:
+            term = self.term_operand(t[1])
+        except Exception:
+            return
+        if t[4] != 'bool' and term.startswith('discr('):
+            inner = term[6:-1]
+            path = None
+            if t[1][0] in ('c', 'm') and isinstance(t[1][1], int):
+                for d in self.defs().get(t[1][1], []):
+                    if d[2] == 'assign' and d[3][0] == 'discr':
+                        path = d[3][2]
+            adt = self.prog.adts.get(path) if path else None
+            if not adt or adt.get('kind') != 'enum' or len(adt['variants']) > 12 or any(v.get('fields') for v in adt['variants']):
+                return
+            T = short_ty(path)
+            names = {v['discr']: v['name'] for v in adt['variants']}
+            by_t = defaultdict(list)
+            for v, b in t[2]:
+                by_t[b].append(names.get(v))
+            listed = [n for ns in by_t.values() for n in ns]
+            for b, ns in by_t.items():
+                if len(ns) == 1 and ns[0]:
+                    add[b].append(norm_cmp('eq', f'{T}::{ns[0]}', inner, ty=T))
+                for w in names.values():
+                    if w not in ns:
+                        add[b] += ['!' + f'is({inner},{w})', '!' + norm_cmp('eq', f'{T}::{w}', inner, ty=T)]
+            oth = t[3]
+            for w in listed:
+                if w:
+                    add[oth] += ['!' + f'is({inner},{w})', '!' + norm_cmp('eq', f'{T}::{w}', inner, ty=T)]
+        elif t[4] == 'bool':
+            self._alias_bool_eq(t, term, add)
+        if t[4] == 'bool':
+            # a TOTAL order (std Ord types, local types with `impl Ord`): !(a <= b) is b < a and !(a < b) is b <= a - label the edge
+            # with both forms (a merely partial order such as SerialNumber keeps its explicit negation)
+            m2 = re.match(r'^(!?)(lt|le):(\w+)\((.*)\)$', term)
+            if m2 and self.prog.is_total_order(m2.group(3)):
+                args = split_args(m2.group(4))
+                if len(args) == 2:
+                    a_, b_ = args
+                    op_, T = m2.group(2), m2.group(3)
+                    dual = ('lt' if op_ == 'le' else 'le') + f':{T}({b_},{a_})'     # equivalent to the NEGATION of op(a,b)
+                    pos_true = not m2.group(1)
+                    edges = [(v, b) for v, b in t[2]]
+                    if len(t[2]) == 1:
+                        edges.append((1 - t[2][0][0], t[3]))
+                    for v, b in edges:
+                        holds = (v != 0) == pos_true      # does op(a,b) hold on this edge?
+                        add[b].append(('!' + dual) if holds else dual)
+        for b, ps in add.items():
+            for p_ in ps:
+                if p_ not in out[b]:
+                    out[b].append(p_)
+
+    def _alias_bool_eq(self, t, term, add):
+        m = re.match(r'^(!?)eq:(\w+)\((.*)\)$', term)
+        if not m:
+            return
+        T = m.group(2)
+        adt = self.prog.adt_by_short(T)
+        if not adt or adt.get('kind') != 'enum' or len(adt['variants']) > 12 or any(v.get('fields') for v in adt['variants']):
+            return
+        args = split_args(m.group(3))
+        if len(args) != 2:
+            return
+        vn = {v['name'] for v in adt['variants']}
+        cons = [a for a in args if a.startswith(T + '::') and a[len(T) + 2:] in vn]
+        if len(cons) != 1:
+            return
+        V = cons[0][len(T) + 2:]
+        other = args[0] if args[1] == cons[0] else args[1]
+        pos_true = not m.group(1)
+        for v, b in t[2]:
+            holds = (v != 0) == pos_true      # does `x == T::V` hold on this edge?
+            self._alias_eq(add[b], other, T, V, vn, holds)
+        if len(t[2]) == 1:
+            v = t[2][0][0]
+            holds = (v == 0) == pos_true
+            self._alias_eq(add[t[3]], other, T, V, vn, holds)
+
+    @staticmethod
+    def _alias_eq(lst, other, T, V, vn, holds):
+        if holds:
+            lst.append(f'is({other},{V})')
+            for w in vn:
+                if w != V:
+                    lst += [f'!is({other},{w})', '!' + norm_cmp('eq', f'{T}::{w}', other, ty=T)]
+        else:
+            lst.append(f'!is({other},{V})')
+            rest = [w for w in vn if w != V]
+            if len(rest) == 1:
+                lst += [f'is({other},{rest[0]})', norm_cmp('eq', f'{T}::{rest[0]}', other, ty=T)]
 
     def _discr_adt(self, op):
         # find the discr rvalue that defines the switch operand
@@ -749,6 +851,25 @@ class Program:
             self._closure_sites = None
             self._callers = None
 
+    STD_TOTAL = {'Instant', 'Duration', 'SystemTime', 'String', 'str', 'char', 'IpAddr', 'Ipv4Addr', 'Ipv6Addr', 'SocketAddr', 'Ordering',
+                 'u8', 'u16', 'u32', 'u64', 'u128', 'usize', 'i8', 'i16', 'i32', 'i64', 'i128', 'isize', 'bool'}
+
+    def is_total_order(self, short):
+        if short in self.STD_TOTAL:
+            return True
+        if not hasattr(self, '_ord_types'):
+            self._ord_types = {short_ty(im.get('self') or '') for im in self.impls if str(im.get('trait') or '').endswith('cmp::Ord')}
+        return short in self._ord_types
+
+    def adt_by_short(self, short):
+        if not hasattr(self, '_adt_short'):
+            m = {}
+            for p_, a in self.adts.items():
+                k = short_ty(p_)
+                m[k] = None if k in m and m[k] is not a else a
+            self._adt_short = m
+        return self._adt_short.get(short)
+
     def activate(self):
         """make this program's closure role names the ones strip_generics applies"""
         CLOSURE_RENAME.clear()
@@ -861,9 +982,16 @@ class Reach:
                         src = rv[1]
                     if rv[0] == 'use' and rv[1][0] in ('c', 'm') and isinstance(rv[1][1], int):
                         src = rv[1][1]
+                    if rv[0] == 'un' and rv[1] == 'Not' and rv[2][0] in ('c', 'm') and isinstance(rv[2][1], int):
+                        src = rv[2][1]
                     if src is not None and src not in cand:
                         cand.add(src)
                         work.append(src)
+                elif d[2] == 'call' and self._is_branch(d[3]):
+                    a0 = d[3][2][0]
+                    if a0[0] in ('c', 'm') and isinstance(a0[1], int) and a0[1] not in cand:
+                        cand.add(a0[1])
+                        work.append(a0[1])
         for l in cand:
             ds = defs.get(l, [])
             if not ds or l <= fn.argc:
@@ -880,9 +1008,34 @@ class Reach:
                         ok_any = True
                     elif rv[0] == 'use' and rv[1][0] in ('c', 'm') and isinstance(rv[1][1], int) and rv[1][1] in cand:
                         ok_any = True
+                elif d[2] == 'call' and (self._is_branch(d[3]) or self._is_from_residual(d[3])):
+                    ok_any = True
             if ok_any:
                 flags.add(l)
         return flags
+
+    @staticmethod
+    def _callee(t):
+        c = t[1]
+        return '' if 'op' in c else (c.get('res') or c.get('def') or '')
+
+    def _is_branch(self, t):
+        return self._callee(t).endswith('Try>::branch') or self._callee(t).endswith('Try::branch')
+
+    def _is_from_residual(self, t):
+        n = self._callee(t)
+        return n.endswith('FromResidual>::from_residual') or n.endswith('FromResidual::from_residual') or 'FromResidual<' in n and n.endswith('::from_residual')
+
+    def _carrier(self, l):
+        ty = self.fn.locals[l] if l < len(self.fn.locals) else ''
+        ty = ty.replace('&', '').strip()
+        if ty.startswith('core::result::Result') or ty.startswith('std::result::Result'):
+            return 'result'
+        if ty.startswith('core::option::Option') or ty.startswith('std::option::Option'):
+            return 'option'
+        if ty.startswith('core::ops::control_flow::ControlFlow') or ty.startswith('core::ops::ControlFlow'):
+            return 'cf'
+        return None
 
     def _exec_block(self, bb, val):
         """apply the block's statements to the valuation (dict local -> value)"""
@@ -914,6 +1067,11 @@ class Reach:
                     v = val.get(rv[1][1])
                     if v is None and rv[1][1] in self.multi:
                         v = ('a', rv[1][1])
+                elif rv[0] == 'un' and rv[1] == 'Not' and rv[2][0] in ('c', 'm') and isinstance(rv[2][1], int):
+                    # `!flag` of a flag whose value is known on this path (`a && !(b && c)` lowers to nested flag merges)
+                    w = val.get(rv[2][1])
+                    if w is not None and w[0] == 'i' and w[1] in (0, 1):
+                        v = ('i', 1 - w[1])
                 if v is None:
                     val.pop(l, None)
                 else:
@@ -928,6 +1086,21 @@ class Reach:
             l = pl if isinstance(pl, int) else pl[0]
             val.pop(l, None)
             # a &mut borrow of a flag passed to a call could change it: conservatively forget
+            if isinstance(pl, int) and pl in self.flags:
+                # `?` on a value whose variant is known on this path (a Result built by an expanded helper): Try::branch of Ok / Some
+                # is Continue, of Err / None is Break; FromResidual::from_residual builds the Err / None of its own carrier
+                if self._is_branch(t) and t[2] and t[2][0][0] in ('c', 'm') and isinstance(t[2][0][1], int):
+                    w = val.get(t[2][0][1])
+                    car = self._carrier(t[2][0][1])
+                    if w is not None and w[0] == 'i' and car in ('result', 'option'):
+                        # Result: Ok=0 -> Continue=0, Err=1 -> Break=1;  Option: None=0 -> Break=1, Some=1 -> Continue=0
+                        val[pl] = ('i', w[1] if car == 'result' else 1 - w[1])
+                elif self._is_from_residual(t):
+                    car = self._carrier(pl)
+                    if car == 'result':
+                        val[pl] = ('i', 1)
+                    elif car == 'option':
+                        val[pl] = ('i', 0)
         return val
 
     def _refine(self, l, val):
@@ -949,13 +1122,21 @@ class Reach:
             return self._refine_cache[src]
         out = None
         ds = defs.get(src, [])
-        consts = [d for d in ds if d[2] == 'assign' and d[3][0] == 'use' and d[3][1][0] == 'k']
+        consts = [d for d in ds if (d[2] == 'assign' and d[3][0] == 'use' and d[3][1][0] == 'k') or (d[2] == 'call' and self._is_from_residual(d[3]))]
         others = [d for d in ds if d not in consts]
         if consts and len(others) == 1:
             try:
                 whole = fn.term_local(src)
                 alt = fn.term_def(others[0], 0)
-                if whole.startswith('phi(') and alt and alt in whole and alt != whole:
+                o = others[0]
+                if o[2] == 'assign' and o[3][0] == 'un' and o[3][1] == 'Not' and o[3][2][0] in ('c', 'm') and isinstance(o[3][2][1], int):
+                    # the computed value is the negation of another merged flag that holds no known constant on this path either
+                    inner = self._refine(o[3][2][1], val)
+                    if inner:
+                        alt2 = negate(inner[1])
+                        if whole.startswith('phi(') and alt in whole:
+                            out = (whole, alt2)
+                if out is None and whole.startswith('phi(') and alt and alt in whole and alt != whole:
                     out = (whole, alt)
             except Exception:
                 out = None
